@@ -97,4 +97,10 @@ CHECKS["C18"] = {
   "note": "exact reals; svd by verified frames (null vectors completed by Gram-Schmidt), orthogonal_procrustes by its definition, LinearRegression by normal equations; optimality only against the stated competitor families",
   "technique": TECH,
 }
+CHECKS["C07"] = {
+  "text": "CUR (both directions) and PCov-CUR (sample direction) are executed on symbolic X, y with svds/eigsh/eigh as uninterpreted functions whose every call is logged: the matrix handed to the routine at each refresh equals the independently computed projection residual (resp. the modified Gram matrix of residual X and residual y), the refresh schedule matches recompute_every in {0,1,2,3}, the score vector equals the sum of squares over the top-k returned vectors along the right axis with exactly the selected entries zeroed, every pick is an arg-max among unselected items, X_current_ equals the projection residual and is orthogonal to every selected item, y_current_ equals y minus the fit on the selected samples.",
+  "design_ref": "DESIGN.md 2/C07, 1.4",
+  "note": "what svds/eigsh/eigh return is trusted by contract (unit norm, zero line => zero entry, ascending eigenvalues), validated against the real routines on each replay; sample/feature duality and PCov-CUR(mixing=1)==CUR only as equality of arguments; PCov-CUR feature direction outside",
+  "technique": TECH,
+}
 NOT_APPLICABLE = {}
